@@ -294,9 +294,8 @@ def run(run):
     run_cases(run, "vf.props.C11", "check_case", cases, {})
     src_cases = [(s, c) for s in SOURCES for c in ("id", "elemwise", "filter", "bcast", "proj")]
     run_cases(run, "vf.props.C11", "check_source", src_cases, {}, chunk=2)
-    from vf.contracts import partitions
-    from vf.props._p import run_specs
+    from vf.contracts.registry import run_property_specs
 
-    run_specs(run, partitions.SPECS, "C11")
+    run_property_specs(run, "C11")
     run.assume("the partitions of 'the fully computed collection' are those of its optimized (fuse=False) plan executed with dask.get")
     run.trust("vf/rt/corpus.py program catalogue; temporary csv/parquet datasets written under a private temp directory and removed")
